@@ -148,6 +148,9 @@ def calls_for(d):
         if 'w' in d.cbs:
             C.append(('setter:veto', ['v2mode 1', 'set%s 0 %s %s' % (t, hx(name), val_tok(t, GOODV[t][3])), 'v2mode 0']))
             if d.is_list:
+                # bulk list calls under a vetoing validator: whether they consult it is the library's business, but a refusal must be all-or-nothing
+                C.append(('maybe:setlist:veto', ['v2mode 1', 'setlist 0 %s %s 3 %s' % (hx(name), t, ' '.join(val_tok(t, v) for v in GOODV[t][:3])), 'v2mode 0']))
+                C.append(('maybe:addlist:veto', ['v2mode 1', 'addlist 0 %s %s 2 %s' % (hx(name), t, ' '.join(val_tok(t, v) for v in GOODV[t][:2])), 'v2mode 0']))
                 C.append(('setter:veto@1', ['v2mode 1', 'set%s 0 %s %s 1' % (t, hx(name), val_tok(t, GOODV[t][3])), 'v2mode 0']))
                 C.append(('setter:veto@append', ['v2mode 1', 'set%s 0 %s %s 9' % (t, hx(name), val_tok(t, GOODV[t][3])), 'v2mode 0']))
         if t == 'ptr':
@@ -255,6 +258,8 @@ def judge(spec, events, death):
     if len(rets) != 1:
         v.bad('harness:short-log', 'expected one return event')
         return v
+    if rets[0]['rc'] == 0 and spec['call'].startswith('maybe:'):
+        return v            # a call that MAY be refused (the statement only says what a refusal must leave behind) was carried out
     if rets[0]['rc'] == 0:
         v.bad('accepted:' + key, '%r: the call must be refused but returned success' % spec)
     if json.dumps(before['tree'], sort_keys=True) != json.dumps(after['tree'], sort_keys=True):
